@@ -90,6 +90,9 @@ def gen_case(rng: random.Random, cfg: str, kind: str) -> dict:
         "reverse": [rng.choice([1, 500, 70000]) for _ in range(rng.randint(1, 3))] if rng.random() < 0.4 else [],
         "eof": rng.choice(["send_eof", "aclose"]),
         "probe_closed": rng.random() < 0.5, "probe_busy": rng.random() < 0.4,
+        # the reader's first receive() is cancelled (timeout) while it waits for data that
+        # the writer has not sent yet; everything afterwards must be as if it never happened
+        "cancelled_receive": rng.random() < 0.35,
     }  # fmt: skip
 
 
@@ -145,7 +148,11 @@ def execute(case: dict) -> dict:
             c = await conn()
 
         s = acc["s"]
+        default_bufs = case.get("bufs") == "default"
         for st in (c, s):
+            if default_bufs:
+                break  # kernel defaults / auto-tuning: large reads, several chunks per wake-up
+
             raw = st.extra(SocketAttribute.raw_socket)
             raw.setsockopt(socket.SOL_SOCKET, socket.SO_SNDBUF, BUF)
             raw.setsockopt(socket.SOL_SOCKET, socket.SO_RCVBUF, BUF)
@@ -165,6 +172,9 @@ def execute(case: dict) -> dict:
         async def writer() -> None:
             pos = 0
             try:
+                if case.get("cancelled_receive"):
+                    await anyio.sleep(0.06)
+
                 for n in sizes:
                     await w.send(pattern(0, pos, n))
                     pos += n
@@ -183,6 +193,9 @@ def execute(case: dict) -> dict:
         def sample_inflight(where: str) -> None:
             infl = st["returned"] - st["delivered"]
             out["max_inflight"] = max(out["max_inflight"], infl)
+            if default_bufs:
+                return  # (auto-tuned buffers: no fixed capacity to compare with)
+
             if infl > bound:
                 viol.append(("unbounded-buffering:in-flight-bytes-exceed-socket-capacity",
                              {"where": where, "in_flight": infl, "bound": bound, "sndbuf": sndbuf,
@@ -194,6 +207,14 @@ def execute(case: dict) -> dict:
         async def reader() -> None:
             k = 0
             stalled_mid = False
+            if case.get("cancelled_receive"):
+                with anyio.move_on_after(0.02) as sc:
+                    early = await r.receive(case["max_bytes"][0])
+                    viol.append(("receive-returned-before-anything-was-sent", {"got": len(early)}))
+
+                if sc.cancelled_caught:
+                    window("receive_cancelled_while_waiting")
+
             if case["stall"] in ("first", "both"):
                 await anyio.sleep(0.12)
                 sample_inflight("before-first-receive")
@@ -423,11 +444,30 @@ def all_cases(tier: str, seed: int):  # noqa: ANN201
                     yield {"cfg": cfg, "kind": kind, "reader": reader, "sizes": [16384] * 64,
                            "max_bytes": [65536], "stall": stall, "reverse": [], "eof": "send_eof",
                            "probe_closed": True, "probe_busy": True}  # fmt: skip
+                    # the same after a cancelled receive(), read in small pieces
+                    yield {"cfg": cfg, "kind": kind, "reader": reader, "sizes": [16384] * 64,
+                           "max_bytes": [4096, 100, 65536], "stall": stall, "reverse": [],
+                           "eof": "send_eof", "probe_closed": False, "probe_busy": False,
+                           "cancelled_receive": True}  # fmt: skip
+
+    # bulk transfers over un-shrunk kernel buffers to a late reader: the loop hands over
+    # large chunks, on uvloop several per wake-up; integrity / order / chunk sizes only
+    for cfg in ("asyncio", "uvloop"):
+        for kind in ("tcp", "unix"):
+            for sizes in ([2 << 20], [262144] * 8):
+                for mb in ([65536], [4096, 65536], [1000]):
+                    yield {"cfg": cfg, "kind": kind, "reader": "connected", "sizes": sizes,
+                           "max_bytes": mb, "stall": "first", "reverse": [], "eof": "aclose",
+                           "probe_closed": False, "probe_busy": False, "bufs": "default"}  # fmt: skip
 
     for _ in range(400 if tier == "thorough" else 36):
         for cfg in ("asyncio", "uvloop"):
             for kind in ("tcp", "unix"):
-                yield gen_case(rng, cfg, kind)
+                case = gen_case(rng, cfg, kind)
+                if rng.random() < 0.2:
+                    case["bufs"] = "default"
+
+                yield case
 
 
 def judge(case: dict, col) -> None:  # noqa: ANN001
